@@ -4,3 +4,16 @@ From LZ4V Require Import Base BlockFormat DecodePortable DecodeAsm BlockTheorems
    different prior contents *)
 Theorem C12 : equiv_stmt.  Proof. exact decoders_equiv. Qed.
 Print Assumptions C12.
+
+(* ==== with the portable side AS TRANSLATED from decode_other.go on this run (GenDecodeBody.v) ====
+   the assembly decoder model and the translated portable decoder give the same outcome, length and bytes *)
+From LZ4V Require Import GoT GenDecodeBody GenDecodeBodyProofs GenDecodeBodyCorollaries.
+Theorem C12_asm_vs_translated_portable : forall src dstA dstB dict src_spare dst_spare dict_spare s0 fuel,
+  bytes src -> sized src dstB dict -> length dstA = length dstB -> (length src + 65 <= fuel)%nat ->
+  exists s', run_decodeBlock fuel dstB dst_spare src src_spare dict dict_spare s0 = Ret s'
+    /\ match obs (decode_asm src dstA dict) with
+       | Some (n, out) => decodeBlock_ret s' = n /\ firstn (Z.to_nat n) (mem_decodeBlock_dst s') = out
+       | None => decodeBlock_ret s' = -2
+       end.
+Proof. exact C12_translated. Qed.
+Print Assumptions C12_asm_vs_translated_portable.
